@@ -81,7 +81,7 @@ def oracle(spec, payload, cfg=None, shards=16, timeout=600, key='calls', constan
     """Evaluate a Gen_* spec on payload (a dict).  payload[key] (a list) is split over `shards` JVMs;
     the other entries are passed to every shard.  Returns the merged output with out[key] in order."""
     items = payload[key]
-    n = max(1, min(max(shards, 64), (len(items) + per_shard - 1) // per_shard))       # more shards than JVMs at a time: they queue on the pool
+    n = max(1, min(max(shards, 512), (len(items) + per_shard - 1) // per_shard))       # more shards than JVMs at a time: they queue on the pool
     size = (len(items) + n - 1) // n if items else 0
     d = env.subdir(f'oracle-{os.getpid()}-{_counter[0]}-{int(time.time()*1000) % 100000}')
     jobs = []
